@@ -547,22 +547,22 @@ def r19j(ctx):
                      "float() conversion of a raw word must sit under a test of the word's shape (first character / isidentifier / "
                      "a pattern)")
     tq = m.need_class("Tokenizer")
-    pk = m.method(tq, "peek")
     n = 0
-    for c in walk_no_nested(pk.node):
+    sites = [(fn, c) for name, (kind, fn) in sorted(m.attrs[tq].items()) if kind == "def" for c in walk_no_nested(fn.node)]
+    for pk, c in sites:
         if isinstance(c, ast.Call) and call_name(c) == "float" and len(c.args) == 1 and isinstance(c.args[0], ast.Name):
             n += 1
             w = c.args[0].id
             facts = [ast.unparse(t) for t, pol in flatten_conditions(dominating_conditions(c))]
             shaped = [x for x in facts if w in x and any(k in x for k in ("isidentifier", "isalpha", "isdigit", "isdecimal", "match(", "[0]", "[:1]"))]
             if shaped:
-                ctx.proved("R19j", pk.file, "Tokenizer.peek", c, f"float({w}) shape test", f"only reached under `{shaped[0][:60]}`")
+                ctx.proved("R19j", pk.file, pk.short, c, f"float({w}) shape test", f"only reached under `{shaped[0][:60]}`")
             else:
-                ctx.violation("R19j", pk.file, "Tokenizer.peek", c, f"float({w}) shape test",
+                ctx.violation("R19j", pk.file, pk.short, c, f"float({w}) shape test",
                               f"`{norm(c, 30)}` is tried on every word that is not an integer, whatever its shape: `nan + 0` evaluates to nan "
                               f"with no variables at all (expected KeyError: unknown identifier), and with locals={{'nan': 5}} the variable is "
                               f"shadowed by the literal")
-    ctx.floor("R19j", n, 1, "float() conversions of raw words in Tokenizer.peek")
+    ctx.floor("R19j", n, 1, "float() conversions of raw words in the Tokenizer")
 
 
 def run(ctx):
